@@ -378,6 +378,8 @@ harnesses! {
     h18_pi_n3f2,   unwind = 8, raw = 7, |r| check_helper::<3, 1, 2>(r, 2, C02 | C18, 0);
     h18_text_n3f2, unwind = 8, raw = 7, |r| check_helper::<3, 1, 2>(r, 0, C02 | C18, 0);
     h2_elem_n3,  unwind = 6, raw = 5,  |r| check_helper::<3, 1, 0>(r, 1, C02, 0);
+    h2_elem_n3k2, unwind = 7, raw = 6, |r| check_helper::<3, 2, 0>(r, 1, C02, 0);
+    h2_text_n3k2, unwind = 7, raw = 6, |r| check_helper::<3, 2, 0>(r, 0, C02, 0);
     h2_pi_n3,    unwind = 6, raw = 5,  |r| check_helper::<3, 1, 0>(r, 2, C02, 0);
     h2_text_n3,  unwind = 6, raw = 5,  |r| check_helper::<3, 1, 0>(r, 0, C02, 0);
     k_bang_split_n7, unwind = 9, raw = 10, |r| check_bang_split::<7>(r);
